@@ -3533,6 +3533,70 @@ int32_t sslGetCipherSpecListLen(const ssl_t *ssl)
             PS_FALSE);
 }
 
+#ifdef USE_CLIENT_SIDE_SSL
+/******************************************************************************/
+/**
+    Did our ClientHello offer this ciphersuite?  A server may only select a
+    suite from the list the client sent.
+    If the user gave an explicit list to matrixSslNewClientSession that list
+    was sent and retained; otherwise the ClientHello carried the default list,
+    which is rebuilt here (it depends only on the enabled protocol versions
+    and on the loaded key material, both unchanged since the ClientHello).
+ */
+psBool_t clientOfferedCipherSuite(ssl_t *ssl, uint16_t id)
+{
+    const psCipher16_t *list = NULL;
+    psSize_t listLen = 0, i;
+    unsigned char *buf;
+    int32_t bufLen, k;
+    psBool_t found = PS_FALSE;
+
+# ifdef USE_TLS_1_3
+    if (ssl->tls13ClientCipherSuitesLen > 0)
+    {
+        list = ssl->tls13ClientCipherSuites;
+        listLen = ssl->tls13ClientCipherSuitesLen;
+    }
+# endif
+    if (list == NULL && ssl->tlsClientCipherSuitesLen > 0)
+    {
+        list = ssl->tlsClientCipherSuites;
+        listLen = ssl->tlsClientCipherSuitesLen;
+    }
+    if (list != NULL)
+    {
+        for (i = 0; i < listLen; i++)
+        {
+            if (list[i] == id)
+            {
+                return PS_TRUE;
+            }
+        }
+        return PS_FALSE;
+    }
+
+    bufLen = sslGetCipherSpecListLen(ssl);
+    if (bufLen <= 2)
+    {
+        return PS_FALSE;
+    }
+    if ((buf = psMalloc(ssl->hsPool, bufLen)) == NULL)
+    {
+        return PS_FALSE;
+    }
+    bufLen = sslGetCipherSpecList(ssl, buf, bufLen, 0);
+    for (k = 2; k + 1 < bufLen; k += 2)
+    {
+        if (((buf[k] << 8) | buf[k + 1]) == id)
+        {
+            found = PS_TRUE;
+        }
+    }
+    psFree(buf, ssl->hsPool);
+    return found;
+}
+#endif /* USE_CLIENT_SIDE_SSL */
+
 /******************************************************************************/
 /*
     Flag the session based on the agreed upon cipher suite
